@@ -958,6 +958,7 @@ def run(res):
 
   # --- end-to-end metamorphic oracle
   t0 = time.time()
+  c0 = time.process_time()   # the e2e budget is CPU time of this process: coverage must not depend on machine load
   budget = 600 if thorough else 32
   n_e2e = 0
   n_unexplorable = 0
@@ -991,7 +992,7 @@ def run(res):
   # (1) breadth first: one small program per error class (c03_progs.SPECIALS); every error it reports gets a
   #     trailing disable on its reported line, the first one also a type: ignore
   for sname, ssrc in P.SPECIALS.items():
-    if time.time() - t0 > budget * 0.5:
+    if time.process_time() - c0 > budget * 0.5:
       break
     b, why = analyse(ssrc, [])
     if b is None:
@@ -1021,7 +1022,7 @@ def run(res):
     if ed["kind"] == "pair" and r.random() < 0.5:
       e2e_plan.append((tag, src, disable, ed))
   for tag, src, disable, ed in e2e_plan:
-    if time.time() - t0 > budget:
+    if time.process_time() - c0 > budget:
       break
     if ed is None:
       b, why = analyse(src, disable)
@@ -1039,7 +1040,7 @@ def run(res):
     else:
       eds = [(ed, ed.get("name"))]
     for e1, cls in eds:
-      if time.time() - t0 > budget:
+      if time.process_time() - c0 > budget:
         break
       run_e2e_edit(tag, src, disable, e1, cls)
   res.extra["e2e_error_class_by_edit_kind"] = dict(sorted(class_by_kind.items()))
